@@ -107,6 +107,35 @@ def run_cfg(ctx, cfg):
                    "provider call must be guarded by a cancellation poll" if ok else why)
     ctx.floor("poll-before-call" + tag, "solver-side provider fetch sites", n_fetch, 2)
 
+    # ---- rule 1b: a polled value is never thrown away ------------------------------------
+    # every poll anywhere in the solver is switched on and its Some payload ends up in an Err(..) / Cancelled(..): a poll whose
+    # result is only tested (`is_none()`) consumes a one-shot signal and lets the solve continue as if nothing had happened
+    n_polls = 0
+    for b in crate.bodies:
+        if not b.key.startswith("resolvo::solver::") or b.crate.is_test:
+            continue
+        ps = None
+        for i, t in b.calls():
+            f = t.get("f")
+            if f is None or not provider_call(f, "should_cancel_with_value"):
+                continue
+            n_polls += 1
+            if ps is None:
+                ps = poll_sites(b, crs)
+            ok = False
+            for pb, pt, c in ps:
+                if pb != i:
+                    continue
+                some_t = c.target("Some")
+                if some_t is None:
+                    continue
+                reach = b.reachable([some_t])
+                if agg_with_poll_value(b, reach, pb, "Err") or agg_with_poll_value(b, reach, pb, "Cancelled"):
+                    ok = True
+            ctx.ob("poll-value-propagated" + tag, b.key, "poll#%s" % (q.enclosing_fn(crate, b).split("::")[-1]), ok, where_call(b, i),
+                   "the value returned by should_cancel_with_value is matched and carried into Err / Cancelled")
+    ctx.floor("poll-value-propagated" + tag, "cancellation polls in the solver", n_polls, 3)
+
     # ---- rule 2: poll per propagation round -------------------------------------------
     prop = body_by_key(crate, SOLVER + "propagate")
     if prop is None:
